@@ -99,7 +99,8 @@ pub struct Cfg {
     pub ind: u8,
     /// parent context 0..=5 (+ wide contexts 6..=8 with parent indentation 14/15/16)
     pub ctx: u8,
-    pub hdr_comment: bool,
+    /// what follows the header on its line: 0 nothing, 1 ` # c`, 2 tab + `# c`, 3 a tab, 4 two spaces
+    pub hdr_comment: u8,
     /// 0 final break, 1 no final break, 2 sibling follows, 3 "..." follows, 4 comment line + sibling
     pub eof: u8,
     /// write the chomping sign before the indentation digit
@@ -190,9 +191,13 @@ pub fn render(lines: &[L], c: &Cfg) -> Option<Rendered> {
     } else {
         s.push_str(ch);
     }
-    if c.hdr_comment {
-        s.push_str(" # c");
-    }
+    s.push_str(match c.hdr_comment {
+        0 => "",
+        1 => " # c",
+        2 => "\t# c",
+        3 => "\t",
+        _ => "  ",
+    });
     let nl = lines.len();
     if nl == 0 && c.eof == 1 {
         return Some(Rendered { text: s, expect: denote(lines, c.folded, c.chomp), has_sibling: false });
